@@ -31,6 +31,8 @@ type Env struct {
 	pkg    *types.Package
 	macros map[string]*Macro
 	depth  int
+	// allocation counter at the entry of the loop whose invariant is being evaluated (loopfresh)
+	loopAlloc *smt.Term
 }
 
 type Macro struct {
@@ -71,6 +73,27 @@ func (env *Env) EvalBool(x *SExpr) (t *smt.Term, err error) {
 	return v.T, nil
 }
 
+// evalAny evaluates a spec expression of any sort (numbers become 64-bit literals).
+func (env *Env) evalAny(x *SExpr) (sv *SVal, err error) {
+	defer func() {
+		if r := recover(); r != nil {
+			if se, ok := r.(*specErr); ok {
+				err = fmt.Errorf("spec: %s", se.msg)
+				return
+			}
+			panic(r)
+		}
+	}()
+	v := env.val(env.ev(x))
+	if v.T == nil && v.Num != nil {
+		return &SVal{T: env.e.C.Lit(v.Num, 64)}, nil
+	}
+	if v.T == nil {
+		sfail("witness expression has no value")
+	}
+	return v, nil
+}
+
 func (env *Env) EvalTerm(x *SExpr) (t *smt.Term, ty types.Type, err error) {
 	defer func() {
 		if r := recover(); r != nil {
@@ -95,6 +118,11 @@ func (env *Env) val(v *SVal) *SVal {
 	}
 	if v.Loc != nil {
 		t := env.e.load(env.st, v.Loc)
+		// Go-level type invariant of the loaded value (0 <= len <= cap < 2^40, allocated, typed): always true of a
+		// well-typed heap, so it may be assumed wherever a contract reads memory
+		if wf := env.e.wellFormedAt(t, v.Loc.Typ, env.st, locHeap(v.Loc)); !wf.IsTrue() {
+			env.e.assume(env.st, wf)
+		}
 		return &SVal{T: t, Typ: v.Loc.Typ, Loc: v.Loc}
 	}
 	sfail("value expected")
@@ -305,6 +333,17 @@ func (env *Env) to64(v *SVal) *smt.Term {
 func (env *Env) index(x, i *SVal) *SVal {
 	e := env.e
 	c := e.C
+	if x.Typ == nil && x.T != nil && x.T.Sort.Kind == smt.KArray {
+		// ghost map (SMT array)
+		var k *smt.Term
+		if i.Num != nil {
+			k = c.Lit(i.Num, x.T.Sort.Idx.W)
+		} else {
+			k = i.T
+		}
+		el := c.Select(x.T, k)
+		return &SVal{T: el, Typ: ghostGoType(el.Sort)}
+	}
 	if x.Typ == nil {
 		sfail("index on untyped value")
 	}
@@ -709,6 +748,13 @@ func (env *Env) call(x *SExpr) *SVal {
 	case "fresh":
 		v := arg(0)
 		return &SVal{T: c.Cmp("bvugt", env.objOf(v), env.alloc0), Typ: boolT}
+	case "loopfresh":
+		// loopfresh(x): x was allocated during the loop (only inside loop invariants)
+		if env.loopAlloc == nil {
+			sfail("loopfresh() is only available in loop invariants")
+		}
+		v := arg(0)
+		return &SVal{T: c.Cmp("bvugt", env.objOf(v), env.loopAlloc), Typ: boolT}
 	case "allocated":
 		v := arg(0)
 		return &SVal{T: c.Cmp("bvule", env.objOf(v), env.st.Alloc), Typ: boolT}
@@ -783,6 +829,20 @@ func (env *Env) call(x *SExpr) *SVal {
 		// [32]byte / Hash value -> its big-endian numeric value (u256)
 		v := arg(0)
 		return &SVal{T: e.bswap(v.T), Typ: e.P.u256Type()}
+	case "bytei":
+		// bytei(x, i): byte i (memory order) of a fixed-size byte array value ([N]byte, Hash, Address; element 0 in the low bits)
+		v := arg(0)
+		i := env.to64(arg(1))
+		w := v.T.Sort.W
+		sh := c.BVOp("bvmul", c.ZExt(c.Extract(31, 0, i), w), c.LitU(8, w))
+		if w < 32 {
+			sfail("bytei on narrow value")
+		}
+		return &SVal{T: c.Extract(7, 0, c.BVOp("bvlshr", v.T, sh)), Typ: types.Typ[types.Uint8]}
+	case "hash":
+		// hash(x): reinterpret a 256-bit ghost value as a common.Hash ([32]byte)
+		v := arg(0)
+		return &SVal{T: v.T, Typ: e.P.resolveType("hash", nil)}
 	case "dyntype_is":
 		v := arg(0)
 		if x.Args[1].Kind != "str" {
